@@ -8,7 +8,7 @@ LEVEL = 'exploration'
 BUDGET = {'quick': 100, 'thorough': 900}
 RULE = ('Cases = 0-4 remote children in mixed states (cooperative loop, swallowing exceptions, idle persistent worker, already '
         'finished, inside a context; persistent ones optionally with a parent thread blocked in next_result()) x {one-shot, persistent} x stop by server.terminate() or SIGTERM to the server x instant of '
-        'the stop (seeded, or directed: while a worker is being started) x schedule.')
+        'the stop (seeded, or directed: while a worker is being started; SIGTERM handled at every line boundary of the start-up) x schedule.')
 ASSUMPTIONS = ['responsive clock; "shortly afterwards" = within 30 simulated seconds']
 
 STATES = ['coop', 'swallow', 'idle-persistent', 'busy-persistent', 'finished', 'in-context']
@@ -202,6 +202,18 @@ def make_run(sim, case):
 def plan(ctx):
     rng = ctx.rng
     n = 1200 if ctx.tier != 'thorough' else 25000
+    # directed: SIGTERM handled by the server's main thread exactly at the k-th line boundary of its start-up of one more worker
+    # (the handler runs between two statements of RemoteWorker.__setstate__: before / after the backend exists, before / after
+    # its pid is known, ...), with 0-2 established children
+    cases = []
+    for k in range(1, 46):
+        for nch in ((0, 2) if ctx.tier == 'thorough' else (k % 3,)):
+            cases.append({'kind': 'server', 'children': [['coop', 'idle-persistent'][j % 2] for j in range(nch)], 'stop': 'sigterm',
+                          'fault': {'kind': 'gate', 'hold': True, 'role': 'child-main:ProcessWorker._run', 'any_thread': True,
+                                    'qualname': 'RemoteWorker.__setstate__', 'occ': k},
+                          'during_start': True, 'stop_timeout': 0, 'consumers': False, 'policy': {'kind': 'directed', 'p_stay': 0.9},
+                          'knobs': {}, 'sched_seed': ctx.case_seed('sigterm-at-line', k, nch)})
+    ctx.run(cases, 'sigterm-at-each-line-of-worker-start-up')
     cases = []
     for i in range(n):
         cases.append(gen_case(ctx, rng, i))
